@@ -39,6 +39,10 @@ type Unit struct {
 	Rej bool `json:"rej,omitempty"`
 	// Txt: EDI only: the escaped text of an extra element, as it is written into the input
 	Txt string `json:"txt,omitempty"`
+	// csv2/fixedlength2 text layout: extra trailing characters on the line (ignored by the column
+	// declarations), and blank lines after it (the readers skip blank lines: they are not units)
+	Pad   int `json:"pad,omitempty"`
+	Blank int `json:"blank,omitempty"`
 }
 
 // Inst is a delivered instance projected to (declaration name, unit ids, child instances).
@@ -392,7 +396,7 @@ func coqDecls(ds []*Decl) string {
 func coqUnits(us []Unit) string {
 	xs := make([]string, len(us))
 	for i, u := range us {
-		xs[i] = fmt.Sprintf("U %d %d", u.Name, u.ID)
+		xs[i] = fmt.Sprintf("Un %d%%N %d%%N", u.Name, u.ID)
 	}
 	return vh.CoqList(xs)
 }
@@ -403,23 +407,23 @@ func coqRej(c *Case) string {
 	if c.Filter {
 		for _, u := range c.Units {
 			if u.Rej {
-				xs = append(xs, fmt.Sprint(u.ID))
+				xs = append(xs, fmt.Sprintf("%d%%N", u.ID))
 			}
 		}
 	}
-	return vh.CoqList(xs)
+	return "(rejN " + vh.CoqList(xs) + ")"
 }
 
 func coqInst(i *Inst) string {
 	ids := make([]string, len(i.IDs))
 	for k, x := range i.IDs {
-		ids[k] = fmt.Sprint(x)
+		ids[k] = fmt.Sprintf("%d%%N", x)
 	}
 	ks := make([]string, len(i.Kids))
 	for k, x := range i.Kids {
 		ks[k] = coqInst(x)
 	}
-	return fmt.Sprintf("(I %d %s %s)", i.Name, vh.CoqList(ids), vh.CoqList(ks))
+	return fmt.Sprintf("(In_ %d%%N %s %s)", i.Name, vh.CoqList(ids), vh.CoqList(ks))
 }
 
 func coqResult(r *Result) (string, string) {
